@@ -285,6 +285,47 @@ pub fn redeclarations(b: &Base) -> Vec<(String, Value)> {
         add("n_layers=16-all-following".to_string(), make_felt(fu(15) + last, lc, &st, last, nq, pow, nf, b.cols, None));
         add("n_layers=1-all-following".to_string(), make_felt(last, lc, &[Felt::ZERO], last, nq, pow, nf, b.cols, None));
     }
+    let mut raw: Vec<(String, Value)> = Vec::new();
+    // fewer step sizes / inner-layer descriptions than the declared layer count, the last-layer bound raised by the
+    // dropped steps so that every sum still agrees (the unpaired trailing entries must not go unchecked)
+    {
+        let n = steps.len();
+        for k in 1..n.saturating_sub(1).min(3) + 1 {
+            if n < k + 2 {
+                continue;
+            }
+            let dropped: u64 = steps[n - k..].iter().sum();
+            let honest = make(lt, lc, &steps, last, nq, pow, nf, b.cols, None);
+            // (a) steps and inner layers both shortened, n_layers kept, last-layer bound raised
+            let mut c1 = to_value(&honest);
+            for _ in 0..k {
+                c1["fri"]["fri_step_sizes"].as_array_mut().unwrap().pop();
+                c1["fri"]["inner_layers"].as_array_mut().unwrap().pop();
+            }
+            c1["fri"]["log_last_layer_degree_bound"] = Value::String(fhex(&(last + fu(dropped))));
+            raw.push((format!("fri-vectors-short-by-{}-last-raised", k), c1.clone()));
+            // (b) only the inner layers shortened
+            let mut c2 = to_value(&honest);
+            for _ in 0..k {
+                c2["fri"]["inner_layers"].as_array_mut().unwrap().pop();
+            }
+            c2["fri"]["log_last_layer_degree_bound"] = Value::String(fhex(&(last + fu(dropped))));
+            raw.push((format!("fri-inner-layers-short-by-{}-last-raised", k), c2));
+            // (c) only the steps shortened
+            let mut c3 = to_value(&honest);
+            for _ in 0..k {
+                c3["fri"]["fri_step_sizes"].as_array_mut().unwrap().pop();
+            }
+            c3["fri"]["log_last_layer_degree_bound"] = Value::String(fhex(&(last + fu(dropped))));
+            raw.push((format!("fri-steps-short-by-{}-last-raised", k), c3));
+        }
+    }
+    // a query count and a blow-up exponent whose PRODUCT is small modulo p (each huge as an integer)
+    for k in [16u32, 40, 64] {
+        let n = pow2(k);
+        let lc_big = (crate::kit::prime() + &n - BigUint::from(1u32)) / &n; // ceil(p / 2^k)
+        add(format!("n_queries=2^{}-with-log_n_cosets=ceil(p/2^{})", k, k), make(lt, b2f(&lc_big), &steps, last, b2f(&n), pow, nf, b.cols, None));
+    }
     // columns moved between the two traces: the total is unchanged, the boundary between what is committed
     // before and after the interaction challenges is not
     {
@@ -299,6 +340,7 @@ pub fn redeclarations(b: &Base) -> Vec<(String, Value)> {
     for (tag, v) in [("0", Felt::ZERO), ("1", Felt::ONE), ("48", fu(48)), ("49", fu(49)), ("2^40", fu(1 << 40)), ("p-1", p_minus(1))] {
         add(format!("n_queries={}", tag), make(lt, lc, &steps, last, v, pow, nf, b.cols, None));
     }
+    out.extend(raw);
     out
 }
 
